@@ -1085,21 +1085,21 @@ func (p *Producer) opAlias() *transaction.Transaction {
 	w := io.NewBufBinWriter()
 	what := ""
 	for i, n := 0, 2+r.Intn(2); i < n; i++ {
-		dv, mu := r.Intn(AliasDerives), r.Intn(AliasMutators)
+		dv, mu, local := r.Intn(AliasDerives), r.Intn(AliasMutators), r.Intn(3) == 0
 		switch r.Intn(4) {
 		case 0:
 			k, v := keyUniverse[r.Intn(len(keyUniverse))], valUniverse[r.Intn(len(valUniverse))]
 			if len(v) == 0 {
 				v = []byte("probe-value")
 			}
-			emit.AppCall(w.BinWriter, d.Hash, AliasPutName(mu), callflag.All, k, v)
-			what += AliasPutName(mu) + " "
+			emit.AppCall(w.BinWriter, d.Hash, AliasPutName(mu, local), callflag.All, k, v)
+			what += AliasPutName(mu, local) + " "
 		case 1:
-			emit.AppCall(w.BinWriter, d.Hash, AliasFindName(dv, mu), callflag.All, keyUniverse[r.Intn(3)][:r.Intn(2)])
-			what += AliasFindName(dv, mu) + " "
+			emit.AppCall(w.BinWriter, d.Hash, AliasFindName(dv, mu, local), callflag.All, keyUniverse[r.Intn(3)][:r.Intn(2)])
+			what += AliasFindName(dv, mu, local) + " "
 		default:
-			emit.AppCall(w.BinWriter, d.Hash, AliasGetName(dv, mu), callflag.All, keyUniverse[r.Intn(len(keyUniverse))])
-			what += AliasGetName(dv, mu) + " "
+			emit.AppCall(w.BinWriter, d.Hash, AliasGetName(dv, mu, local), callflag.All, keyUniverse[r.Intn(len(keyUniverse))])
+			what += AliasGetName(dv, mu, local) + " "
 		}
 	}
 	tx := p.Tx("memory-probe", []neotest.Signer{u.S}, w.Bytes(), -1)
